@@ -13,6 +13,35 @@ CHAIN_VARIANTS = ["genuine", "quote-link", "quote-custom-data", "attestation-lin
                   "qe-cert-expired", "qe-cert-not-yet-valid", "ca-cert-expired"]
 
 
+EXTRAS = ["root-word:own-root", "root-word:other-root", "root-word-first:own-root",
+          "other-name:own-root", "other-name-linked:own-root", "v1-root-word:own-root",
+          "empty-name:own-root"]
+
+
+def add_extra(cert, extra, own_root_der, other_root_der):
+    """An additional element whose name collides with a reserved word of the format (or not):
+    'root-word' = named "sgx_root" ('-first': listed before the others); 'v1-root-word' =
+    "root"; 'empty-name' = ""; 'other-name' = "shipped_root"; 'other-name-linked' = as before and
+    the platform CA names it as its certifier.  ':own-root' = the self-signed root of the
+    hierarchy the chain was signed under, ':other-root' = the root of the other hierarchy."""
+    if extra is None:
+        return cert
+    kind, _, which = extra.partition(":")
+    der = other_root_der if which == "other-root" else own_root_der
+    name = {"root-word": "sgx_root", "root-word-first": "sgx_root", "v1-root-word": "root",
+            "other-name": "shipped_root", "other-name-linked": "shipped_root",
+            "empty-name": ""}[kind]
+    el = {"name": name, "type": "x509_pem", "message": S.pem_body(der).decode().strip(),
+          "signed_by": "sgx_root"}
+    els = [dict(e) for e in cert["elements"]]
+    if kind == "other-name-linked":
+        for e in els:
+            if e["name"] == "platform_ca":
+                e["signed_by"] = name
+    els = [el] + els if kind == "root-word-first" else els + [el]
+    return dict(cert, elements=els)
+
+
 class SgxGen:
     def __init__(self, rng, hierarchy=None, profile="seeded"):
         self.h = hierarchy or S.Hierarchy(rng)
